@@ -12,6 +12,7 @@ import Proofs.GoTieNative
 import Proofs.GoTieSshRsa
 import Props.C01
 import Proofs.GoTieSsh
+import Proofs.GoTieWitnessA
 namespace AgeModel
 namespace Tie.C01
 
@@ -116,6 +117,17 @@ theorem code_sshRsa_wrap_unwrap (P : Prims) (hP : P.Correct) {π β γ : Type} (
     rfl
   · obtain ⟨r, hrun, hcls⟩ := GoTie.sshRsa_unwrap_tie P E key priv st
     exact ⟨r, hrun, by rw [hcls, Props.C01.sshrsa_wrap_unwrap P hP (E.wire key) (E.pubOf pub) (E.privOf priv) seed fk st hpair hw]⟩
+
+/-- **the assumption structures this file's theorems take are satisfiable** (for a lawful toy primitive suite
+    with the 16-byte tag, where they mention primitives): none of the theorems above is vacuous. The instances are in
+    `Proofs/GoTieWitnessA.lean` / `GoTieWitnessB.lean`. -/
+theorem assumptions_satisfiable :
+    Prims.toy16.Correct ∧ Prims.toy16.aead.NonceSep ∧ Prims.toy16.aead.T = 16 ∧
+    Nonempty (GoTie.DecryptEnv Prims.toy16 Identity) ∧
+    Nonempty (GoTie.NativeEnv Prims.toy16 Bytes) ∧
+    Nonempty (GoTie.RsaEnv Prims.toy16 Bytes Bytes Bytes) ∧
+    Nonempty (GoTie.SshEnv Prims.toy16 Bytes Bytes) :=
+  ⟨Prims.toy16_correct, AEAD.toy16_nonceSep, rfl, ⟨GoTie.DecryptEnv.witness⟩, ⟨GoTie.NativeEnv.witness⟩, ⟨GoTie.RsaEnv.witness⟩, ⟨GoTie.SshEnv.witness⟩⟩
 
 end Tie.C01
 end AgeModel
